@@ -74,7 +74,7 @@ GroupStart(lay, i) == IF i >= 1 /\ IsComment(lay[i]) THEN GroupStart(lay, i - 1)
 Num(i) == ToString(i)
 (* text the harness writes on comment line i. Every third // line reads "go: c<i>": ordinary words that happen to start like a
    compiler directive (a real directive has no space after the slashes and is no part of the comment text) *)
-DocText(k, i) == IF k = "K" THEN "k" \o Num(i) ELSE IF i % 3 = 2 THEN "go: c" \o Num(i) ELSE "c" \o Num(i)
+DocText(k, i) == IF k = "K" THEN "k" \o Num(i) ELSE IF i % 3 = 2 THEN "go: c" \o Num(i) ELSE IF i % 3 = 0 THEN "host:port c" \o Num(i) ELSE "c" \o Num(i)
 TagVal(i) == "v" \o Num(i)                                               \* // +t=v<i>
 TrailText(i) == "t" \o Num(i)
 
@@ -126,7 +126,9 @@ LineSet == { <<43, 107, 61, 118>>,            \* +k=v
              <<116, 101, 120, 116>>,          \* text
              <<>>,                            \* empty
              <<32, 32, 43, 107, 61, 120, 32>>,\* "  +k=x "
-             <<107, 61, 118>> }               \* k=v   (no marker)
+             <<107, 61, 118>>,                \* k=v   (no marker)
+             <<24107, 107, 61, 118>>,         \* U+5E2B k=v : a word whose first character merely ENDS in the byte of '+'
+             <<320, 61, 118>> }               \* U+0140 =v  : ... in the byte of '@'  (markers are characters, not bytes)
 GenInitList == /\ part = "tags" /\ ctx = "none" /\ layout = <<>>
                /\ lines \in UNION {[1..n -> LineSet] : n \in 2..3}
 GenNone == FALSE /\ UNCHANGED vars
